@@ -25,7 +25,8 @@ for d in sorted(glob.glob(f'{root}/seeded/*/')):
         continue
     meta = json.load(open(d + 'meta.json'))
     own = meta.get('property', sid[:3])
-    if subprocess.run(['git', '-C', REPO, 'apply', d + 'patch.diff']).returncode != 0:
+    patch = d + ('patch_ported.diff' if os.path.exists(d + 'patch_ported.diff') else 'patch.diff')
+    if subprocess.run(['git', '-C', REPO, 'apply', patch]).returncode != 0:
         res[sid] = {own: 'patch-does-not-apply'}
         continue
     try:
